@@ -1,7 +1,8 @@
 (* C10: Message.Marshal and a successful Message.UnmarshalJSON keep the message object clean (every data element that
    is not populated is as new), so the independence theorem of Unpack applies after them. About Model/Marshal.v and
    Model/MessageOps.v. *)
-From Iso Require Import Model.Base Model.Spec Model.Field Model.Message Model.MessageOps Model.Marshal
+From Coq Require Import Strings.String.
+From Iso Require Import Model.Base Model.Encoding Model.Spec Model.Field Model.Message Model.MessageOps Model.Marshal
      Proofs.BaseLemmas Proofs.StateProofs Proofs.MessageRoundtrip Proofs.IndependenceProofs.
 From Coq Require Import ZifyBool ZifyNat.
 Set Default Timeout 120.
@@ -51,4 +52,30 @@ Proof.
       destruct (json_into s st d) as [st' [u|e|q|]]; try discriminate.
       refine (IH _ _ (clean_step S m id (with_present (with_fields m (zupdate id st' (m_fields m))) (zadd id (m_present m))) Hc eq_refl eq_refl _ _) H); cbn [with_present with_fields m_fields]; [apply map_fst_zupdate|].
       intros i Hne. apply zlookup_zupdate_other. lia.
+Qed.
+
+(* UnsetFields(path) keeps the object clean: a whole element is unset as UnsetField does, a deeper path changes a
+   populated element only *)
+Theorem m_unset_path_clean S m path : NoDup (map fst (ms_fields S)) -> (forall i s, In (i, s) (ms_fields S) -> 2 <= i) ->
+  msg_clean S m -> msg_clean S (fst (m_unset_path S m path)).
+Proof.
+  intros Hnd H2 Hc. unfold m_unset_path. destruct path as [|b0 pr]; [exact Hc|].
+  destruct (split_path (b0 :: pr) []) as [|idb rest]; [exact Hc|]. destruct (atoi idb) as [id|]; [|exact Hc].
+  destruct (zmem id (m_present m)) eqn:Em; [|exact Hc].
+  destruct rest as [|r0 rr]; [apply m_unset_clean; assumption|].
+  assert (Hdeep : forall rest', msg_clean S (fst (match zlookup id (ms_fields S), zlookup id (m_fields m) with
+                    | Some (FComp p l md ss as s), Some st => match comp_unset_path s st rest' with (st', o) => (with_fields m (zupdate id st' (m_fields m)), o) end
+                    | Some (FPrim _), Some _ => (m, Err [])
+                    | _, _ => (m, Err [])
+                    end))).
+  { intros rest'. destruct (zlookup id (ms_fields S)) as [[p|p l md ss]|]; try exact Hc; destruct (zlookup id (m_fields m)) as [st|]; try exact Hc.
+    destruct (comp_unset_path (FComp p l md ss) st rest') as [st' o]. cbn [fst]. destruct Hc as (Hk & Hf). split; [cbn [with_fields m_fields]; rewrite map_fst_zupdate; exact Hk|].
+    cbn [with_fields m_fields m_present m_failed]. intros i s Hi Hm Hfl. rewrite zlookup_zupdate_other by (intros ->; congruence). apply Hf; assumption. }
+  assert (Hgoal : forall rest', msg_clean S (fst (match zlookup id (ms_fields S), zlookup id (m_fields m) with
+                    | Some (FComp p l md ss as s), Some st => match comp_unset_path s st rest' with (st', o) => (with_fields m (zupdate id st' (m_fields m)), o) end
+                    | Some (FPrim _), Some _ => (m, Err (E "unset.not_composite"))
+                    | _, _ => (m, Err (E "unset.not_composite"))
+                    end))).
+  { intros rest'. specialize (Hdeep rest'). destruct (zlookup id (ms_fields S)) as [[p|p l md ss]|]; destruct (zlookup id (m_fields m)) as [st|]; try exact Hc; exact Hdeep. }
+  destruct r0 as [|c0 cr]; [destruct rr; [apply m_unset_clean; assumption|apply Hgoal]|apply Hgoal].
 Qed.
